@@ -9,7 +9,8 @@ import json, os, random, re
 REPO = os.environ.get("VERIF_REPO", "/repo")
 HARNESS_OVERRIDE = None     # set by gen_checks when the harness module is a scratch copy
 
-KINDS = ["struct", "ptr", "int", "slice", "map", "generic", "ext"]
+KINDS = ["struct", "ptr", "int", "slice", "map", "generic", "ext", "any"]
+PARAM_KINDS = KINDS + ["errv", "errv"]     # the type error can only come from cff.Params (a task's error result is not a value)
 SENTINEL = "h.Sentinel"
 
 
@@ -40,19 +41,20 @@ class Ty:
     def go(self):
         n = self.n
         return {"struct": n, "ptr": "*" + n, "int": n, "slice": "[]%sE" % n, "map": "map[string]%sE" % n,
-                "generic": "%s[string]" % n, "ext": "ext.E%d" % self.k}[self.kind]
+                "generic": "%s[string]" % n, "ext": "ext.E%d" % self.k, "any": "any", "errv": "error"}[self.kind]
 
     def mk(self, tok):
         n = self.n
         return {"struct": "%s{Tok: %s}" % (n, tok), "ptr": "&%s{Tok: %s}" % (n, tok), "int": "%s(%s)" % (n, tok),
                 "slice": "[]%sE{{Tok: %s}}" % (n, tok), "map": 'map[string]%sE{"k": {Tok: %s}}' % (n, tok),
-                "generic": "%s[string]{Tok: %s}" % (n, tok), "ext": "ext.E%d{Tok: %s}" % (self.k, tok)}[self.kind]
+                "generic": "%s[string]{Tok: %s}" % (n, tok), "ext": "ext.E%d{Tok: %s}" % (self.k, tok),
+                "any": "any(h.TokBox{Tok: %s})" % tok, "errv": "h.TokErr(%s)" % tok}[self.kind]
 
     def acc(self, v):
         n = self.n
         return {"struct": "%s.Tok" % v, "ptr": "tok%s(%s)" % (n, v), "int": "int(%s)" % v,
                 "slice": "tok%s(%s)" % (n, v), "map": '%s["k"].Tok' % v, "generic": "%s.Tok" % v,
-                "ext": "%s.Tok" % v}[self.kind]
+                "ext": "%s.Tok" % v, "any": "h.AnyTok(%s)" % v, "errv": "h.ErrTok(%s)" % v}[self.kind]
 
 
 # ------------------------------------------------------------------ rendering
@@ -152,6 +154,9 @@ def render_flow(p):
         shape = st.get("emitshape", "flat")
         if shape == "stack2" and p["leaves"] == 2:
             return "\t\tcff.WithEmitter(%s),\n" % w.arg("x.Stack2(1, 2)")
+        if shape == "shared" and p["leaves"] == 4:
+            # a process-wide nested stack of three leaves shared by all executions, then an emitter of this execution
+            return "\t\tcff.WithEmitter(%s),\n\t\tcff.WithEmitter(%s),\n" % (w.arg("h.Team()"), w.arg("x.Emitter(4)"))
         s = ""
         for l in range(1, p["leaves"] + 1):
             s += "\t\tcff.WithEmitter(%s),\n" % w.arg("x.Emitter(%d)" % l)
@@ -346,6 +351,9 @@ def render_parallel(p):
             elif p["coemode"] == "expr":
                 text += "\t\tcff.ContinueOnError(%s),\n" % w.arg("x.Coe()")
         elif o == "emit":
+            if st.get("emitshape") == "shared" and p["leaves"] == 4:
+                text += "\t\tcff.WithEmitter(%s),\n\t\tcff.WithEmitter(%s),\n" % (w.arg("h.Team()"), w.arg("x.Emitter(4)"))
+                continue
             for l in range(1, p["leaves"] + 1):
                 text += "\t\tcff.WithEmitter(%s),\n" % w.arg("x.Emitter(%d)" % l)
         elif o == "instr":
@@ -380,9 +388,13 @@ def header(pkg, fstyle):
     """File header. fstyle: build-constraint header, import aliases (cff, context, ext, h)."""
     ca, xa, ea = fstyle.get("cff", ""), fstyle.get("context", ""), fstyle.get("ext", "")
     cons = fstyle.get("constraint", "//go:build cff")
-    return ("%s\n\npackage %s\n\nimport (\n\t%s\"context\"\n\n\t%s\"go.uber.org/cff\"\n\t%s\"vgen/ext\"\n\n\t\"verif/harness/pkg/h\"\n)\n\n"
-            "var _ = %s.Background\nvar _ %s.E1\n\n" % (cons, pkg, (xa + " ") if xa else "", (ca + " ") if ca else "",
-                                                         (ea + " ") if ea else "", xa or "context", ea or "ext"))
+    # the same package imported a second time under another name (legal Go; the generator has to pick one name)
+    dup = fstyle.get("dup", "")
+    dupimp = {"context": "\tdupctx \"context\"\n", "cff": "\tdupcff \"go.uber.org/cff\"\n", "": ""}[dup]
+    dupuse = {"context": "var _ = dupctx.Background\n", "cff": "var _ = dupcff.NopEmitter\n", "": ""}[dup]
+    return ("%s\n\npackage %s\n\nimport (\n\t%s\"context\"\n%s\n\t%s\"go.uber.org/cff\"\n\t%s\"vgen/ext\"\n\n\t\"verif/harness/pkg/h\"\n)\n\n"
+            "var _ = %s.Background\nvar _ %s.E1\n%s\n" % (cons, pkg, (xa + " ") if xa else "", dupimp, (ca + " ") if ca else "",
+                                                         (ea + " ") if ea else "", xa or "context", ea or "ext", dupuse))
 
 
 def respell(text, fstyle):
@@ -404,7 +416,7 @@ SURROUND = [
 
 def gen_fstyle(rng):
     return dict(cff=rng.choice(["", "", "c", "cff2"]), context=rng.choice(["", "", "stdctx"]),
-                ext=rng.choice(["", "", "time", "debug", "multierr"]),
+                ext=rng.choice(["", "", "time", "debug", "multierr"]), dup=rng.choice(["", "", "context"]),
                 constraint=rng.choice(["//go:build cff", "//go:build cff", "//go:build cff\n// +build cff",
                                        "// +build cff", "//go:build cff && !never"]))
 
@@ -460,6 +472,20 @@ def write_module(root, packages, fancy=True):
 
 
 # ------------------------------------------------------------------ seeded program generators
+def pick_kinds(rng, ntypes, params):
+    """How each value type is spelled.  `any` and `error` are single Go types: at most one value type of a
+    flow may be spelled that way (a type may have only one provider), and error only for a Params value."""
+    out, used = {}, set()
+    for k in range(1, ntypes + 1):
+        kind = rng.choice(PARAM_KINDS if k in params else KINDS)
+        if kind in ("any", "errv"):
+            if kind in used:
+                kind = "struct"
+            used.add(kind)
+        out[str(k)] = kind
+    return out
+
+
 def gen_flow(rng, name, max_tasks=4, features=None, plain=False):
     """plain: only Params, Results, Concurrency and plain Tasks (the subset modifier mode supports, C20)."""
     features = features or {}
@@ -517,12 +543,15 @@ def gen_flow(rng, name, max_tasks=4, features=None, plain=False):
             u["instr"] = True
     order = ["params", "results", "conc", "emit", "instr"] + [u["id"] for u in units if u["kind"] == "task"]
     rng.shuffle(order)
+    emitshape = rng.choice(["flat", "flat", "stack2", "nop"])
+    if leaves > 0 and rng.random() < 0.25:
+        leaves, emitshape = 4, "shared"
     p = dict(name=name, dir="flow", ntypes=ntypes, params=params, results=results, units=units, nargsexpr=0,
              leaves=leaves, instr=instr, hasconc=rng.random() < 0.7, coemode="none", autoins=False, mode="base",
-             style=dict(tkind={str(k): rng.choice(KINDS) for k in range(1, ntypes + 1)}, order=order,
+             style=dict(tkind=pick_kinds(rng, ntypes, params), order=order,
                         spell={str(u["id"]): rng.choice(["lit", "lit", "paren", "method"]) for u in units},
                         argforms=rng.choice([["call"], ["call", "call", "ident"], ["call", "ident"]]), argseed=rng.randint(0, 10**6),
-                        emitshape=rng.choice(["flat", "flat", "stack2", "nop"])))
+                        emitshape=emitshape))
     return p
 
 
@@ -555,6 +584,8 @@ def gen_parallel(rng, name):
             style["namedslice"][str(c)] = rng.random() < 0.3
             style["spell"][str(eid)] = rng.choice(["lit", "lit", "method"])
     leaves = rng.choice([0, 0, 1, 2])
+    if leaves > 0 and rng.random() < 0.25:
+        leaves, style["emitshape"] = 4, "shared"
     for u in units:
         if u["kind"] == "ptask" and leaves > 0 and rng.random() < 0.6:
             u["instr"] = True
